@@ -8,7 +8,6 @@ from props import PROPS, MANIFEST_TEXT
 VERIF = os.path.dirname(os.path.dirname(os.path.abspath(__file__)))
 
 NA = {
-    "C06": "pure function of the value (UUID equality / definedness); the only schedule-dependent ingredient (sync.Pool buffers) is runtime-internal and has no seam; colliding pairs are input enumeration, not simulation. Store-visible consequences are observed under C01 (DESIGN.md section 7)",
     "C13": "HAVING is evaluated row by row after all engine concurrency has ended: a pure function of (row, expression) with no schedule, clock, fault or history in it (DESIGN.md section 7)",
     "C17": "a finite static grammar table; deciding it is enumeration / static analysis, not simulation (DESIGN.md section 7)",
 }
